@@ -259,6 +259,10 @@ def check_fee_validators(ctx, model, tag):
 
 def run(ctx):
     model = ctx.model()
+    # the value update_config stores as initial_amp is compute_amp_factor(): it stays between the ramp's endpoints only if
+    # the interpolation adds on the way up and subtracts on the way down (C04-A4's operator-tree rule)
+    from .C04 import check_interpolation_wiring
+    check_interpolation_wiring(ctx.renamed({"C04-A4": "C18-amp"}), model)
     check_fee_validators(ctx, model, "workspace")
     n_store = 0
     # ---- pool fees -------------------------------------------------------------------
